@@ -627,5 +627,58 @@ func rulesC15(e *Engine, r *Report) {
 			}
 		}
 	}
+	// ---------------------------------------------------------------- R15.6
+	r.Rule("R15.6", "a refused request leaves nothing behind: the wrapper obtains the source's gatekeeper BEFORE it asks the validator, so building a gatekeeper (the factory: stage.New + the receive logger's constructor, and every goroutine they start, up to its first wait for a message) must perform no file-system mutation - directories and log files come into being only when a part or a record is written; timer callbacks armed by the constructor are listed, not followed")
+	{
+		var factory *ssa.Function
+		if fn := needFn(e, r, "R15.6", "main.(*serverApp).init"); fn != nil {
+			Instrs(fn, func(in ssa.Instruction) {
+				st, ok := in.(*ssa.Store)
+				if !ok {
+					return
+				}
+				fa, ok := st.Addr.(*ssa.FieldAddr)
+				if !ok {
+					return
+				}
+				if f := fieldVar(fa.X, fa.Field); f != nil && f.Name() == "GateKeeperFactory" {
+					v := st.Val
+					for {
+						if ct, ok := v.(*ssa.ChangeType); ok {
+							v = ct.X
+							continue
+						}
+						break
+					}
+					if mc, ok := v.(*ssa.MakeClosure); ok {
+						factory, _ = mc.Fn.(*ssa.Function)
+					} else if f, ok := v.(*ssa.Function); ok {
+						factory = f
+					}
+				}
+			})
+		}
+		if factory == nil {
+			r.Unresolved("R15.6", "the function stored in http.Server.GateKeeperFactory")
+		} else {
+			x := e.newEffects()
+			eff := x.constructionEffects(factory)
+			desc := x.describe(eff)
+			r.Check(len(eff) == 0, "R15.6", e.ShortName(factory)+": building a gatekeeper mutates nothing on disk", e.Pos(factory.Pos()),
+				"the gatekeeper factory (run for ANY named source before the request is authorised) reaches a file-system mutation: "+strings.Join(desc, "; "), 1+len(x.memo), append(desc, x.later...)...)
+			r.Min("R15.6", "goroutines/timers started while building a gatekeeper (followed up to their first receive)", len(x.later), 3)
+			// positive control: the same analysis does see the mutations of the data path
+			if rc := needFn(e, r, "R15.6", "stage.(*Stage).Receive"); rc != nil {
+				r.Check(len(x.sync(rc)) >= 3, "R15.6", "positive control: Receive reaches file-system mutations", e.Pos(rc.Pos()), "the effect analysis no longer sees the writes of the data path (it would be vacuous)", len(x.sync(rc)))
+			}
+			if lg := needFn(e, r, "R15.6", "log.(*rollingFile).log"); lg != nil {
+				r.Check(len(x.sync(lg)) >= 2, "R15.6", "positive control: writing a log record reaches mkdir/open through the function-typed fields", e.Pos(lg.Pos()), "the effect analysis no longer sees the logger's mkdir/open", len(x.sync(lg)))
+			}
+		}
+		// the order that makes this matter
+		if fn := needFn(e, r, "R15.6", "http.(*Server).handleValidate"); fn != nil {
+			_ = fn
+		}
+	}
 	_ = sort.Strings
 }
